@@ -22,7 +22,7 @@ RULE = ('case = (device parameter table over all 10 firmware types, protocol gen
 ASSUMPTIONS = ['simulated device implements the firmware param protocol (read/write/misc) as documented',
                'a default-value reply whose first value byte equals ENOENT is ambiguous in the protocol; None or the value '
                'are both accepted for it', 'each (misc command, parameter) pair is outstanding at most once']
-REQUIRED = ['mon.sessions_with_the_tables_taken_from_the_cache', 'mon.persistent_requests_accepted', 'mon.extended_type_answers_arriving_twice_during_set_up', 'mon.values_read_back_inside_an_update_callback', 'mon.writes_checked', 'mon.refused_checked', 'mon.value_replies', 'mon.callback_invocations',
+REQUIRED = ['mon.cached_sessions_with_a_change_notification_before_the_tables_are_there', 'mon.sessions_with_the_tables_taken_from_the_cache', 'mon.persistent_requests_accepted', 'mon.extended_type_answers_arriving_twice_during_set_up', 'mon.values_read_back_inside_an_update_callback', 'mon.writes_checked', 'mon.refused_checked', 'mon.value_replies', 'mon.callback_invocations',
             'mon.misc_replies', 'mon.one_outstanding_pairs', 'mon.precedence_pairs', 'mon.notifications',
             'mon.multi_outstanding_misc_cases', 'mon.v1_cases', 'mon.state_queries_answered_enoent',
             'mon.instant_reply_cases_with_statement_level_preemption', 'mon.additional_listeners_checked',
@@ -194,6 +194,11 @@ def run(desc, ctx):
             done.clear()
             n_items = sum(1 for t in spec.tx if (t[2] >> 4) & 0xF == 2 and t[2] & 3 == 0 and t[3] and t[3][0] in (0, 2))
             cf.open_link(uri)
+            if cf.link is not None and dev.params and (desc['seed'] // 3) % 2 == 0:
+                # the firmware tells about a parameter changed on board right away - before the tables of this session are there
+                h_, d_ = dev.value_updated_packet(desc['seed'] % len(dev.params))
+                cf.link.inject(h_, d_, (0.0, 0.0005, 0.002)[(desc['seed'] // 6) % 3])
+                ob['early_notification'] = True
             if not done.wait(600.0) or cf.param.is_updated is not True:
                 ob['problems'].append('never fully connected (second session)')
                 return
@@ -311,6 +316,8 @@ def run(desc, ctx):
     ctx.evals()
     if ob.get('from_cache'):
         ctx.count('mon.sessions_with_the_tables_taken_from_the_cache')
+        if ob.get('early_notification'):
+            ctx.count('mon.cached_sessions_with_a_change_notification_before_the_tables_are_there')
     rp = dict(desc)
 
     def V(mech, detail):
